@@ -105,15 +105,22 @@ def StepGood (len : Nat) : Step Builder → Prop
 theorem spansIn_new (len : Nat) (env : Env) : SpansIn len (Builder.new env) :=
   ⟨fun e he => by simp [Builder.new] at he, fun eb h => by simp [Builder.new] at h⟩
 
-theorem prefix_good {len : Nat} {b : Builder} (h : SpansIn len b) (p u : Str) : StepGood len (b.prefix p u) := by
+theorem prefix_good {len : Nat} {b : Builder} (h : SpansIn len b) (p : Str) {u : StrSpan} {sp : Span}
+    (hu : u.Inside len) (hsp : sp.InBounds len) : StepGood len (b.prefix p u sp) := by
   unfold Builder.prefix
   split
-  · trivial
-  · rename_i eb heb
-    refine ⟨h.1, fun eb' he => ?_⟩
-    simp only [Option.some.injEq] at he
-    subst he
-    exact h.2 eb heb
+  · rename_i e he
+    exact contentErr_inBounds hu he
+  · dsimp only
+    split
+    · trivial
+    · rename_i eb heb
+      split
+      · exact hsp
+      · refine ⟨h.1, fun eb' he => ?_⟩
+        simp only [Option.some.injEq] at he
+        subst he
+        exact h.2 eb heb
 
 theorem attribute_good {len : Nat} {b : Builder} (h : SpansIn len b) {p l v : StrSpan}
     (hp : p.Inside len) (hl : l.Inside len) (hv : v.Inside len) : StepGood len (b.attribute p l v) := by
@@ -174,16 +181,20 @@ theorem addAttributes_good {len : Nat} (stack : NsStack) (node : Path) (abs : Li
     | ok r =>
       obtain ⟨env1, nameId⟩ := r
       simp only
-      by_cases hdup : (nameId == Env.xmlIdName && st.seenIds.contains ab.value) = true
-      · simp only [hdup, if_true]
-        exact hab0.2.1
-      · simp only [hdup]
-        refine ih _ (fun x hx => hab x (by simp [hx])) ?_
-        intro a ha
-        simp only [List.mem_append, List.mem_singleton] at ha
-        rcases ha with ha | rfl
-        · exact hs a ha
-        · exact ⟨hab0.1, hab0.2.1⟩
+      by_cases hrep : st.seenNames.contains nameId = true
+      · simp only [hrep, if_true]
+        exact hab0.1
+      · simp only [hrep]
+        by_cases hdup : (nameId == Env.xmlIdName && st.seenIds.contains ab.value) = true
+        · simp only [hdup, if_true]
+          exact hab0.2.1
+        · simp only [hdup]
+          refine ih _ (fun x hx => hab x (by simp [hx])) ?_
+          intro a ha
+          simp only [List.mem_append, List.mem_singleton] at ha
+          rcases ha with ha | rfl
+          · exact hs a ha
+          · exact ⟨hab0.1, hab0.2.1⟩
 
 theorem openElement_good {len : Nat} {b : Builder} (h : SpansIn len b) : StepGood len b.openElement := by
   unfold Builder.openElement
@@ -198,7 +209,7 @@ theorem openElement_good {len : Nat} {b : Builder} (h : SpansIn len b) : StepGoo
       exact elementNameId_err h2 he
     · rename_i env1 nameId _
       have hl := addAttributes_good (len := len) (eb.namespaces :: b.nsStack) (b.curPath ++ [b.cur.rkids.length])
-        eb.attributes { env := env1, seenIds := b.seenIds, idNodes := b.idNodes, rkids := namespaceKids eb.namespaces, aspans := [] }
+        eb.attributes { env := env1, seenIds := b.seenIds, idNodes := b.idNodes, seenNames := [], rkids := namespaceKids eb.namespaces, aspans := [] }
         h3 (fun a ha => by simp at ha)
       split
       · trivial
@@ -232,12 +243,14 @@ theorem closeElement_good {len : Nat} {b : Builder} (h : SpansIn len b) {p l sp 
   · rename_i e env he
     exact elementNameId_err (StrSpan.span_inBounds hp) he
   · split
+    · exact fromPrefixName_inBounds hp hl
     · split
-      · exact fromPrefixName_inBounds hp hl
+      · split
+        · exact fromPrefixName_inBounds hp hl
+        · refine leave_good (b := _) ?_ _ hs
+          exact ⟨h.1, h.2⟩
       · refine leave_good (b := _) ?_ _ hs
         exact ⟨h.1, h.2⟩
-    · refine leave_good (b := _) ?_ _ hs
-      exact ⟨h.1, h.2⟩
 
 theorem addText_spans (b : Builder) (c : Str) : (b.addText c).1.spans = b.spans ∧ (b.addText c).1.eb = b.eb := by
   unfold Builder.addText; split <;> exact ⟨rfl, rfl⟩
@@ -258,11 +271,13 @@ theorem text_good {len : Nat} {b : Builder} (h : SpansIn len b) {t : StrSpan} (h
 theorem cdata_good {len : Nat} {b : Builder} (h : SpansIn len b) {t : StrSpan} (ht : t.Inside len) :
     StepGood len (b.cdata t) := by
   unfold Builder.cdata
-  obtain ⟨h1, h2⟩ := addText_spans b t.text
-  refine ⟨?_, fun eb he => h.2 eb (by rw [← h2]; exact he)⟩
-  simp only
-  rw [h1]
-  exact SpanMap.extendText_allIn h.1 _ (StrSpan.span_inBounds ht)
+  split
+  · exact h
+  · obtain ⟨h1, h2⟩ := addText_spans b (replaceCr (replaceCrLf t.text))
+    refine ⟨?_, fun eb he => h.2 eb (by rw [← h2]; exact he)⟩
+    simp only
+    rw [h1]
+    exact SpanMap.extendText_allIn h.1 _ (StrSpan.span_inBounds ht)
 
 theorem step_good {len : Nat} {b : Builder} (h : SpansIn len b) (t : Token) (ht : t.Inside len) :
     StepGood len (b.step t) := by
@@ -271,9 +286,9 @@ theorem step_good {len : Nat} {b : Builder} (h : SpansIn len b) (t : Token) (ht 
     obtain ⟨hp, hl, hv, _⟩ := ht
     simp only [Builder.step]
     split
-    · exact prefix_good h _ _
+    · exact prefix_good h _ hv (fromPrefixName_inBounds hp hl)
     · split
-      · exact prefix_good h _ _
+      · exact prefix_good h _ hv (fromPrefixName_inBounds hp hl)
       · exact attribute_good h hp hl hv
   | text t => exact text_good h ht
   | cdata t sp => exact cdata_good h ht.1
@@ -326,7 +341,11 @@ theorem run_good {len : Nat} (ts : List Token) (lexErr : Option Nat) (hlex : ∀
   | nil =>
     intro b h _
     cases lexErr with
-    | none => exact h
+    | none =>
+      simp only [Builder.run]
+      split
+      · rename_i eb heb; exact (h.2 eb heb).1
+      · exact h
     | some p => exact ⟨hlex p rfl, hlex p rfl⟩
   | cons t ts ih =>
     intro b h ht
